@@ -290,7 +290,7 @@ def run_machine(pid, part, n, steps, seed_value, stats, known, found):
                 else:
                     bad.append(v)
             if bad:
-                last["case"] = list(self.history)
+                last["case"] = list(getattr(self.interp, "case_prefix", list)()) + list(self.history)
                 last["v"] = bad[0]
                 self._finish()
                 raise ViolationFound(bad[0].key)
